@@ -12,6 +12,7 @@ Template syntax.  Everything is ordinary Verus text except directive blocks made
     //|       invariant ..                                textual order); `iter` names the ghost iterator of a `for`
     //@   atstart                                     R2: payload (ghost block) inserted at the very start of the body (no anchor needed)
     //@   loopend <n>                                 R2: payload (ghost block) inserted at the end of the n-th loop's body
+    //@   loopstart <n>                               R2: ... at the start of the n-th loop's body (no anchor inside the body needed)
     //@   before /<regex>/                            R2: payload inserted before the (single) line matching regex
     //@   after /<regex>/                             R2: ... after that line
     //@   let <name> : <type>                         R3: ascribe a type to `let [mut] name =`
@@ -73,6 +74,15 @@ def parse_template(path):
             out.append(('text', i + 1, '// ---- begin include %s' % s[len('//@ include '):].strip()))
             out.extend(parse_template(inc))
             out.append(('text', i + 1, '// ---- end include'))
+            i += 1
+            continue
+        if s.startswith('//@ pin '):
+            m = re.match(r'//@ pin\s+(.*?)\s+@([0-9a-f]{8})\s*$', s)
+            if not m:
+                raise TemplateError('%s:%d bad pin directive: %r' % (path, i + 1, s))
+            segs = [x.strip() for x in m.group(1).split(' :: ')]
+            out.append(('pin', i + 1, segs[0], segs[1:], m.group(2)))
+            out.append(('text', i + 1, '// (pinned: the source text of %s is the text this model was written for)' % ' :: '.join(segs[1:])))
             i += 1
             continue
         if s.startswith('//@ fn ') or s.startswith('//@ item '):
@@ -288,6 +298,13 @@ def expand_fn(src, item_path, subs, log, tline):
             at = ls if body_msk[ls:close].strip() == '' else close
             edits.append((body_off + at, 0, ptxt + '\n', ln))
             log.append({'rule': 'R2', 'item': name, 'what': 'ghost block at end of loop %d body (%d lines)' % (n, len(payload))})
+        elif d.startswith('loopstart '):
+            n = int(d.split()[1])
+            if n > len(loops):
+                raise LostAnchor('%s: loop %d not found (%d loops)' % (name, n, len(loops)))
+            kw_off, brace_off, kw = loops[n - 1]
+            edits.append((body_off + brace_off + 1, 0, '\n' + ptxt, ln))
+            log.append({'rule': 'R2', 'item': name, 'what': 'ghost block at start of loop %d body (%d lines)' % (n, len(payload))})
         elif d == 'atstart':
             # ghost block right after the opening brace of the body: needs no anchor inside the body
             edits.append((it.hdr_end + 1, 0, '\n' + ptxt + '\n', ln))
@@ -385,6 +402,26 @@ def expand_item(src, item_path, subs, log, tline):
     return chunks, {'item': name, 'file': src.path, 'line': first_line, 'kind': item.kw}
 
 
+def pin_digest(text):
+    """digest of a source item with comments dropped and whitespace collapsed (comment / formatting edits do not move it);
+    the contents of string and char literals count"""
+    msk = extract.mask(text)
+    out = []
+    in_str = False
+    for i, (c, m) in enumerate(zip(text, msk)):
+        if m == '"':
+            in_str = not in_str
+            out.append('"')
+        elif c == m:
+            out.append(c)
+        elif in_str or (i > 0 and text[i - 1] in "'\\" and msk[i - 1] != ' ') or (i > 1 and text[i - 2] == "'" and text[i - 1] == '\\'):
+            out.append(c)          # literal content
+        else:
+            out.append(' ')        # comment
+    norm = re.sub(r'\s+', ' ', ''.join(out)).strip()
+    return hashlib.sha1(norm.encode('utf-8')).hexdigest()[:8]
+
+
 def assemble(template_path, repo):
     """-> (text, linemap, log, extracted)   linemap[i] (0-based output line) = origin tuple"""
     cache = {}
@@ -394,6 +431,17 @@ def assemble(template_path, repo):
     for ent in parse_template(template_path):
         if ent[0] == 'text':
             chunks.append(Chunk(ent[2] + '\n', ('unit', ent[1])))
+        elif ent[0] == 'pin':
+            # a function of the repository that the unit replaces by a MODEL with an assumed contract: the model was written for one exact text;
+            # if that text changes the assumption is stale, and the unit is undecided (lost anchor) instead of silently passing
+            _, tline, rel, item_path, want = ent
+            src = _read(repo, rel, cache)
+            item = src.find(item_path)
+            dig = pin_digest(src.text[item.vis_start:item.end])
+            if dig != want:
+                raise LostAnchor('pin %s :: %s: the source of a function the unit models (assumed contract) changed (digest %s, template pins %s)'
+                                 % (rel, ' :: '.join(item_path), dig, want))
+            log.append({'rule': 'PIN', 'item': ' :: '.join(item_path), 'count': 1, 'what': 'modelled function, source text pinned by digest %s' % want})
         else:
             _, tline, kind, rel, item_path, subs = ent
             src = _read(repo, rel, cache)
